@@ -3,6 +3,7 @@ import Rooc.Wire
 import Rooc.Pre.Types
 import Rooc.Pre.Expand
 import Rooc.Pre.Lets
+import Rooc.Pre.Scopes
 namespace Rooc.Pre
 open Rooc Sexp
 
@@ -66,6 +67,38 @@ partial def TE.dec : Sexp → Option (TE α)
   | .list [.atom "bin", .atom op, a, b] => do pure (.bin (← BinOp.ofName op) (← TE.dec a) (← TE.dec b))
   | .list (.atom "acc" :: .str n :: idx) => (optAll (idx.map TE.dec)).map (.access n)
   | .list (.atom "call" :: .str f :: args) => (optAll (args.map TE.dec)).map (.call f)
+  | _ => none
+
+/-- `(it ("a" "b") single|tuple TE)` -/
+def TIt.dec : Sexp → Option (TIt α)
+  | .list [.atom "it", .list vs, .atom form, e] => do
+    let names ← optAll (vs.map fun | .str n => some n | _ => none)
+    pure { vars := names, tuple := form == "tuple", over := ← TE.dec e }
+  | _ => none
+/-- `(for (its IT…) (idx TE…))` -/
+def TFor.dec : Sexp → Option (TFor α)
+  | .list [.atom "for", .list (.atom "its" :: its), .list (.atom "idx" :: idx)] => do
+    pure { its := ← optAll (its.map TIt.dec), idx := ← optAll (idx.map TE.dec) }
+  | _ => none
+
+def optTE : Sexp → Option (Option (TE α))
+  | .atom "none" => some none
+  | e => (TE.dec e).map some
+/-- `(bool)`, `(real LO HI)`, `(nnreal LO HI)`, `(int LO HI)`; an absent bound is `none` -/
+def TTy.dec : Sexp → Option (TTy α)
+  | .list [.atom "bool"] => some .bool
+  | .list [.atom "real", a, b] => do pure (.real (← optTE a) (← optTE b))
+  | .list [.atom "nnreal", a, b] => do pure (.nnreal (← optTE a) (← optTE b))
+  | .list [.atom "int", a, b] => do pure (.int (← TE.dec a) (← TE.dec b))
+  | _ => none
+/-- `(decl (its IT…) (vars (v "n") | (cv "n" TE…) …) TY)` -/
+def TDecl.dec : Sexp → Option (TDecl α)
+  | .list [.atom "decl", .list (.atom "its" :: its), .list (.atom "vars" :: vs), ty] => do
+    let vars ← optAll (vs.map fun
+      | .list [.atom "v", .str n] => some (n, none)
+      | .list (.atom "cv" :: .str n :: idx) => (optAll (idx.map TE.dec)).map (fun ix => (n, some ix))
+      | _ => none)
+    pure { its := ← optAll (its.map TIt.dec), vars := vars, ty := ← TTy.dec ty }
   | _ => none
 
 def encRes (r : Except OpErr (Prim α)) : Sexp :=
